@@ -40,10 +40,18 @@ package rootmulti
 //@   ensures [recorded] forall j int :: 0 <= j && j < len(ci.StoreInfos) ==> (exists k Iface :: has(storeMap, k) && ci.StoreInfos[j].Core.CommitID.Version == sub.idver[storeMap[k]] && ci.StoreInfos[j].Core.CommitID.Hash == sub.idhash[storeMap[k]])
 
 // ASSUMED (amino encoding is outside the subset): the batch now carries s/<version> resp. s/latest = version.
-//@ assumed func setCommitInfo(batch dbm.Batch, version int64, cInfo commitInfo)
+// the package codec is created by the package initialiser (var cdc = codec.New()) and never reassigned
+//@ invariant rmcdcinv: !isnil(cdc)
+//@ func setCommitInfo(batch dbm.Batch, version int64, cInfo commitInfo)
+//@   props C12 C13
+//@   uses rmcdcinv
+//@   requires ifacenotnil(batch)
 //@   modifies wb.cinfo
 //@   ensures wb.cinfo == version
-//@ assumed func setLatestVersion(batch dbm.Batch, version int64)
+//@ func setLatestVersion(batch dbm.Batch, version int64)
+//@   props C12 C13
+//@   uses rmcdcinv
+//@   requires ifacenotnil(batch)
 //@   modifies wb.latest
 //@   ensures wb.latest == version
 
@@ -55,6 +63,7 @@ package rootmulti
 // saved it and carries marker and commit info together (preconditions of Batch.Write).
 //@ func (rs *Store) Commit() (id types.CommitID)
 //@   props C12 C13
+//@   uses rmcdcinv
 //@   requires rs.lastCommitID.Version >= 0 && rs.lastCommitID.Version < 9223372036854775807
 //@   requires disk.latest == rs.lastCommitID.Version && ifacenotnil(rs.DB)
 // representation: the mounted substores are exactly the values of rs.stores, one store per key, all at the last
